@@ -19,9 +19,18 @@ PROPS = {
                      "round trip: the decoder accepting every spec encoding (DecodeComplete) is not proved; it is exercised by the dynamic rt ops"]),
     "C03": P(3, ["C03"]),
     "C04": P(4, ["C04"], stateful=True),
-    "C05": P(5, ["C05"], stateful=True),
-    "C06": P(6, ["C06"], stateful=True),
-    "C07": P(7, ["C07"], stateful=True),
+    "C05": P(5, ["C05"], stateful=True,
+        explanation='Model H: any poke-free client leaves structure, content, denoted pure tree and observed root of every existing cell unchanged; old cells change only by unset-to-correct-root memo fills; a client run after another client gets its solo results (C05_frame, C05_only_memo_fill, C05_root_unchanged, C05_copy_detached[_flat]); C05_poke_counterexample shows the NoPoke premise (= the regenerated write-site inventory) is necessary',
+        assumptions=['NoPoke: the view layer performs no in-place write into an existing node (tied to the code by the regenerated mutation-site inventory F2 and by snapshots re-verified from raw node structure after every step)', 'the memo field is invisible to clients'],
+        trusted=COMMON_TRUST + ["hand model of PairNode.MerkleRoot, NewPairNode and the Node accessors as rootH/Prog primitives (Model/Heap.lean)"]),
+    "C06": P(6, ["C06"], stateful=True,
+        explanation='MemoValid is invariant under every poke-free client; MerkleRoot equals the memo-free root whatever the memo state; results are invariant under inserting or deleting root requests anywhere and under the initial memo state (C06_inv, C06_root_correct, C06_independent, C06_root_memo_independent)',
+        assumptions=['NoPoke (fact inventory F2)', 'inserted/deleted root requests are on existing nodes'],
+        trusted=COMMON_TRUST + ["hand model of PairNode.MerkleRoot, NewPairNode and the Node accessors as rootH/Prog primitives (Model/Heap.lean)"]),
+    "C07": P(7, ["C07"], stateful=True,
+        explanation='a second request costs 0 calls, also with arbitrary client work in between; calls = number of distinct pairs reached through unset pairs; after a setter spine (with or without zero expansion) calls <= path length (C07_second_free[_general], C07_count, C07_path, C07_path_expand, C07_incremental)',
+        assumptions=["NoZeroOut h: h a b != zero root for the pairs hashed (the Go memo encodes 'unset' as the zero root; for SHA-256 an assumption, shown necessary by C07_zero_hash_counterexample)", 'MemoClosed for the end-to-end theorem', 'wall-clock time and garbage allocation are not modelled: the counted quantity is pair-hash invocations'],
+        trusted=COMMON_TRUST + ["hand model of PairNode.MerkleRoot, NewPairNode and the Node accessors as rootH/Prog primitives (Model/Heap.lean)"]),
     "C17": P(17, ["C17"], stateful=True,
         rule="iter ops on views of every series/bitfield/container kind: read-only iterator and index-based iterator run to their end plus extra calls, each element read at the step it is produced; CORR vs the explicit iterator state machines; "
              "PROP: the sequence equals indexed access on the plain value, end exactly at the length and sticky; lengths inside/at/after 32-byte and 256-bit chunks, limits up to 2^40; distinct = distinct (type shape, value shape, op) per history position",
@@ -46,6 +55,19 @@ PROPS = {
         assumptions=["b.length < 2^64 where len is converted to uint64", "BitvectorCheck: n + 7 < 2^64; for n >= 2^64-7 the Go code wraps and accepts exactly the empty string (bitvectorCheck_wrapped; same arithmetic as known finding D19; generator does not emit these)",
                      "len/ones/zero PROP only on valid bitlist encodings, get/set PROP only for indices inside the slice (CORR everywhere)"],
         trusted=COMMON_TRUST + ["Lean core UInt64/UInt8 semantics = Go uint64/uint8", "math/bits.OnesCount8 modelled by its specification"]),
+    "C09": P(9, ["C09"],
+        rule="CORR: model obs == Go obs for every fl.enc/fl.dec op; PROP: fl.enc bytes = Spec serialize, ByteLength = length, FixedLength = length (fixed) / 0 (variable); fl.dec value read back from the destination struct = V for priors fresh/short/long "
+             "(destination first decodes a derived shorter/longer value); every boundary length/limit per element kind + random compositions; distinct = distinct (type shape, value shape, prior, outcome)",
+        explanation="C09_enc (flatEncode = ok(serialize), ByteLength = length), C09_fixedLength, C09_dec (decoding serialize t v into a destination with ANY prior content returns exactly v), C09_roundtrip, C09_accepts_valid - all wf types, all values",
+        assumptions=["(serialize t v).length < 2^32 (offset words; WriteOffset panics beyond)", "lengths/limits/scopes < 2^61 so Go uint64 expressions do not wrap (modelled on Nat)",
+                     "appended list elements and union values are fresh zero values (harness recipe)"],
+        trusted=COMMON_TRUST + ["harness/flat.go composes the codec helpers the way downstream users do (the recipe is part of the model); flatShort/flatLong written twice (Go and Lean)"]),
+    "C10": P(10, ["C10"],
+        rule="CORR: model obs == Go obs for every fl.raw op; PROP: never panic; ok => value well-typed, serialize T value == input, re-encoding == input; exhaustive strings <= 2 (thorough 3) bytes over small variable-size types, "
+             "offset-word enumeration on offset-carrying types, valid encodings + structure-aware corruptions on random variable-size types; distinct = distinct (type shape, input shape, outcome)",
+        explanation="C10_no_panic (all types, all readers), C10_sound/C10_valid/C10_rejects_invalid (accepted => hasType and serialize = input), C10_reencode, C10_sound_reader (exact consumption on any reader), C10_bitlistCheck_agrees/C10_bitvectorCheck_agrees (= C18 model)",
+        assumptions=["t.wf; variable-size top level (C10_fixed_top states what happens otherwise)", "C10_reencode: input < 2^32 bytes", "next-off wrap modelled as the SubScope refusal it causes (scopes < 2^63)"],
+        trusted=COMMON_TRUST + ["harness/flat.go recipe"]),
     "C11": P(11, ["C11"],
         rule="CORR: model obs == Go obs for every tr.* op (dump of result tree, root, unchanged/shared flags, error class, panic); PROP on the Go observation with spec helpers: read-back = written node, every sibling of the path = original node "
              "(or zero node inside an expanded summary), root = branch root over original siblings (= write into materialised zero subtree), summarise keeps root, unchanged=1 shared=1 (Go checks pointer identity of all off-path nodes and the dump/root of the original), "
@@ -54,7 +76,10 @@ PROPS = {
         assumptions=["memo field of PairNode erased (MerkleRoot recomputed)", "gindex 0 is not a generalized index: CORR only", "fill depth >= 64 CORR only (uint64 shift wraps to 0; Model/Tree.lean fills use 2^depth on naturals, faithful below depth 64)", "fillToLength law needs length > 0", "Gindex64 bit iteration = gbits (C16)"],
         trusted=COMMON_TRUST + ["tree text notation parser/dumper written twice (Go and Lean)", "pointer-identity checks in harness/ops_tree.go"]),
     "C12": P(12, ["C12"], stateful=True),
-    "C14": P(14, ["C14"], race=True),
+    "C14": P(14, ["C14"], race=True,
+        explanation="in every schedule, with per-thread hash functions, the shared heap stays equal to the base, every write is private, write sets are disjoint from other threads' accesses, each thread's state equals its solo run, and a finished thread's result equals the big-step run on the base heap (C14_no_shared_write, C14_race_free, C14_sequential, C14_results); C14_unhashed_counterexample shows the 'hashed beforehand' premise is necessary",
+        assumptions=['FullyMemo of the start nodes plus Safe clients, or AllMemo base plus NoPoke clients', 'interleaving granularity = one tree primitive; the Go memory model and compiler reordering are not modelled (the race detector run covers the accesses that actually occur)', 'no package-level mutable state besides ZeroHashes and the stateless Hash (fact inventory F3/F4)'],
+        trusted=COMMON_TRUST + ["hand model of PairNode.MerkleRoot, NewPairNode and the Node accessors as rootH/Prog primitives (Model/Heap.lean)"]),
     "C20": P(20, ["C20"]),
     "C19": P(19, ["C19"],
         rule="CORR = model observation string equal to the implementation's on every cv.* op (each op runs every public route reaching the same conv function); PROP = verdict ok on every line; "
